@@ -2,7 +2,7 @@
    which are predicates on the state the operation is applied to — and the history theorem over them. *)
 From Coq Require Import List ZArith NArith Bool Arith Lia.
 From IE Require Import Lib.C08Lib Gen.UndoGen Model.Undo Model.EditModel Model.EditOps Model.DocModel Model.DocOps Model.ScrollOps
-  Proofs.UndoProofs Proofs.LayerProofs Proofs.EditProofs Proofs.ApiProofs Proofs.DocProofs Proofs.ScrollProofs.
+  Proofs.UndoProofs Proofs.LayerProofs Proofs.EditProofs Proofs.ApiProofs Proofs.DocProofs Proofs.DocRowColProofs Proofs.ScrollProofs.
 Import ListNotations.
 Local Open Scope Z_scope.
 
@@ -79,36 +79,17 @@ Proof.
   intros e2 E. apply edit_chain_joint; eauto using xeqv_sym, xeqv_trans.
 Qed.
 
-(* ------------------------------------------------------------------ known defect classes (predicates on the state an operation is applied to) *)
-(* C08-resize-rewrites-sauce-size: a SAUCE record whose size is not the buffer size *)
-Definition known_sauce_size (s : xstate) : Prop := ~ sauce_in_sync s.
-(* C08-setfont-records-slot0: the font is written to the caret's page but the old font is read from slot 0 *)
-Definition known_setfont (s : xstate) : Prop :=
-  ((x_fontmode s =? 0)%N || (x_fontmode s =? 1)%N = false) /\ fget (x_cfp s) (x_fonts s) <> fget 0 (x_fonts s).
-(* C08-addfont-overwrites-slot: the slot already holds a font *)
-Definition known_addfont (page : N) (s : xstate) : Prop := fget page (x_fonts s) <> None.
-(* C08-fontslot-overwrites-slot: the target slot of change_font_slot already holds another font *)
-Definition known_fontslot (from to : N) (s : xstate) : Prop :=
-  fget from (x_fonts s) <> None /\ from <> to /\ fget to (x_fonts s) <> None.
-Definition never (s : xstate) : Prop := False.
-
-Lemma optN_dec (a b : option N) : {a = b} + {a <> b}.
-Proof. decide equality. apply N.eq_dec. Qed.
-
-Lemma sauce_in_sync_dec s : {sauce_in_sync s} + {~ sauce_in_sync s}.
-Proof.
-  unfold sauce_in_sync. destruct (x_sauce s) as [sa|]; [|left; exact I].
-  destruct (Z.eq_dec (sa_w sa) (bw (xb s))); [|right; tauto]. destruct (Z.eq_dec (sa_h sa) (bh (xb s))); [left; tauto|right; tauto].
-Qed.
+(* The known defect classes this file used to carry as predicates on the state an operation is applied to (known_sauce_size, known_setfont,
+   known_addfont, known_fontslot) were repaired by fix commits: every modelled operation is sound on EVERY state, `xmodelled` has no class
+   index any more. The old records and their witnesses: end of this file (`*_before_fix_refuted_proof`). *)
 
 (* ------------------------------------------------------------------ stage 1: component swaps *)
-Lemma x_resize_buffer_sound w h e e' : ~ known_sauce_size (cur e) -> x_resize_buffer w h e = Ok e' -> xedit_chain e e'.
+Lemma x_resize_buffer_sound w h e e' : x_resize_buffer w h e = Ok e' -> xedit_chain e e'.
 Proof.
-  intros HK H. unfold x_resize_buffer in H.
-  assert (Hs : sauce_in_sync (cur e)) by (destruct (sauce_in_sync_dec (cur e)); [assumption|contradiction]).
-  destruct (xpush_sound _ _ e (XResizeBuffer (bw (xb (cur e))) (bh (xb (cur e))) w h) (x_set_bsize (cur e) w h)
+  intro H. unfold x_resize_buffer in H.
+  destruct (xpush_sound _ _ e (XResizeBuffer (bw (xb (cur e))) (bh (xb (cur e))) w h (sauce_size (cur e))) (x_set_bsize (cur e) w h)
               (xstable_lclosed _ xresize_stable)) as (e1 & E1 & C1 & _).
-  { exists w, h. split; [reflexivity|]. split; [exact Hs|apply xeqv_refl]. }
+  { exists w, h. split; [reflexivity|apply xeqv_refl]. }
   xfinish H E1 C1.
 Qed.
 
@@ -136,29 +117,28 @@ Proof.
   xfinish H E1 C1.
 Qed.
 
-Lemma x_set_font_sound sv newf e e' : ~ known_setfont (cur e) -> x_set_font sv newf e = Ok e' -> xedit_chain e e'.
+Lemma x_set_font_sound sv newf e e' : x_set_font sv newf e = Ok e' -> xedit_chain e e'.
 Proof.
-  intros HK H. unfold x_set_font in H.
+  intro H. unfold x_set_font in H.
   destruct ((x_fontmode (cur e) =? 0)%N && negb sv); [discriminate|].
-  destruct newf as [nf|]; [|discriminate]. destruct (fget 0 (x_fonts (cur e))) as [f0|] eqn:E0; [|discriminate].
-  set (slot := if (x_fontmode (cur e) =? 0)%N || (x_fontmode (cur e) =? 1)%N then 0%N else x_cfp (cur e)) in H.
-  assert (Hslot : fget slot (x_fonts (cur e)) = Some f0).
-  { unfold slot. destruct ((x_fontmode (cur e) =? 0)%N || (x_fontmode (cur e) =? 1)%N) eqn:Em; [exact E0|].
-    destruct (optN_dec (fget (x_cfp (cur e)) (x_fonts (cur e))) (fget 0 (x_fonts (cur e)))) as [Heq|Hne]; [congruence|].
-    exfalso. apply HK. split; assumption. }
-  destruct (xpush_sound _ _ e (XSetFont slot f0 nf) (with_fonts (cur e) (fset slot nf (x_fonts (cur e)))) (xstable_lclosed _ setfont_stable)) as (e1 & E1 & C1 & _).
-  { exists slot, f0, nf. split; [reflexivity|]. split; [exact Hslot|apply xeqv_refl]. }
-  xfinish H E1 C1.
+  destruct newf as [nf|]; [|discriminate].
+  destruct ((x_fontmode (cur e) =? 0)%N || (x_fontmode (cur e) =? 1)%N).
+  - destruct (fget 0 (x_fonts (cur e))) as [f0|] eqn:E0; [|discriminate].
+    destruct (xpush_sound _ _ e (XSetFont 0 (Some f0) nf) (with_fonts (cur e) (fset 0 nf (x_fonts (cur e)))) (xstable_lclosed _ setfont_stable)) as (e1 & E1 & C1 & _).
+    { exists 0%N, nf. rewrite E0. split; [reflexivity|apply xeqv_refl]. }
+    xfinish H E1 C1.
+  - set (slot := x_cfp (cur e)) in *.
+    destruct (xpush_sound _ _ e (XSetFont slot (fget slot (x_fonts (cur e))) nf) (with_fonts (cur e) (fset slot nf (x_fonts (cur e)))) (xstable_lclosed _ setfont_stable)) as (e1 & E1 & C1 & _).
+    { exists slot, nf. split; [reflexivity|apply xeqv_refl]. }
+    xfinish H E1 C1.
 Qed.
 
-Lemma x_add_ansi_font_sound page newf e e' : ~ known_addfont page (cur e) -> x_add_ansi_font page newf e = Ok e' -> xedit_chain e e'.
+Lemma x_add_ansi_font_sound page newf e e' : x_add_ansi_font page newf e = Ok e' -> xedit_chain e e'.
 Proof.
-  intros HK H. unfold x_add_ansi_font in H. destruct (x_fontmode (cur e) =? 3)%N; [|discriminate].
+  intro H. unfold x_add_ansi_font in H. destruct (x_fontmode (cur e) =? 3)%N; [|discriminate].
   destruct newf as [nf|]; [|discriminate].
-  assert (Hn : fget page (x_fonts (cur e)) = None).
-  { destruct (fget page (x_fonts (cur e))) eqn:E; [|reflexivity]. exfalso. apply HK. unfold known_addfont. rewrite E. discriminate. }
-  destruct (xpush_sound _ _ e (XAddFont (x_cfp (cur e)) page nf) (with_fonts (cur e) (fset page nf (x_fonts (cur e)))) (xstable_lclosed _ addfont_stable)) as (e1 & E1 & C1 & _).
-  { exists (x_cfp (cur e)), page, nf. split; [reflexivity|]. split; [exact Hn|apply xeqv_refl]. }
+  destruct (xpush_sound _ _ e (XAddFont (x_cfp (cur e)) page nf None) (with_fonts (cur e) (fset page nf (x_fonts (cur e)))) addfont_closed) as (e1 & E1 & C1 & _).
+  { exists (x_cfp (cur e)), page, nf, None. split; [reflexivity|apply xeqv_refl]. }
   xfinish H E1 C1.
 Qed.
 
@@ -190,22 +170,18 @@ Proof.
   xfinish H E1 C1.
 Qed.
 
-Lemma xpush_fontslot_err from to (e : XE) : fget from (x_fonts (cur e)) = None -> xpush (XChangeFontSlot from to) e = Err 6.
+Lemma xpush_fontslot_err from to pay (e : XE) : fget from (x_fonts (cur e)) = None -> xpush (XChangeFontSlot from to pay) e = Err 6.
 Proof. intro Hn. unfold xpush, push_action. rewrite f_redo_leaf. cbn [xop_redo]. rewrite Hn. reflexivity. Qed.
 
-Lemma x_change_font_slot_sound from to e e' : ~ known_fontslot from to (cur e) -> x_change_font_slot from to e = Ok e' -> xedit_chain e e'.
+Lemma x_change_font_slot_sound from to e e' : x_change_font_slot from to e = Ok e' -> xedit_chain e e'.
 Proof.
-  intros HK H. unfold x_change_font_slot in H. eapply xguarded_end_chain; [|exact H]. clear H e'.
+  intro H. unfold x_change_font_slot in H. eapply xguarded_end_chain; [|exact H]. clear H e'.
   set (e0 := mkEs (cur e) (ustk e) []). intros e2 H. cbv beta in H.
   destruct (fget from (x_fonts (cur e))) as [f|] eqn:Ef.
-  - assert (Hto : from = to \/ fget to (x_fonts (cur e)) = None).
-    { destruct (N.eq_dec from to) as [|Hne]; [left; assumption|]. right.
-      destruct (fget to (x_fonts (cur e))) eqn:Et; [|reflexivity]. exfalso. apply HK.
-      unfold known_fontslot. rewrite Ef, Et. repeat split; try discriminate. exact Hne. }
-    destruct (xpush_sound _ _ e0 (XChangeFontSlot from to) (with_fonts (cur e0) (fset to f (fdel from (x_fonts (cur e0))))) (xstable_lclosed _ fontslot_stable)) as (e1 & E1 & C1 & _).
-    { exists from, to, f. split; [reflexivity|]. split; [exact Ef|]. split; [exact Hto|apply xeqv_refl]. }
+  - destruct (xpush_sound _ _ e0 (XChangeFontSlot from to None) (with_fonts (cur e0) (fset to f (fdel from (x_fonts (cur e0))))) fontslot_closed) as (e1 & E1 & C1 & _).
+    { exists from, to, f, None. split; [reflexivity|]. split; [exact Ef|apply xeqv_refl]. }
     rewrite E1 in H. eapply xchain_trans; [exact C1|]. eapply x_replace_font_usage_sound; exact H.
-  - rewrite (xpush_fontslot_err from to e0 Ef) in H. eapply x_replace_font_usage_sound; exact H.
+  - rewrite (xpush_fontslot_err from to None e0 Ef) in H. eapply x_replace_font_usage_sound; exact H.
 Qed.
 
 Lemma x_remove_font_sound font e e' : x_remove_font font e = Ok e' -> xedit_chain e e'.
@@ -299,27 +275,25 @@ Qed.
 
 (* ================================================================================================================
    stage 3: crop / resize with layers *)
-Lemma x_crop_rect_sound r e e' : ~ known_sauce_size (cur e) -> x_crop_rect r e = Ok e' -> xedit_chain e e'.
+Lemma x_crop_rect_sound r e e' : x_crop_rect r e = Ok e' -> xedit_chain e e'.
 Proof.
-  intros HK H. unfold x_crop_rect in H. destruct r as [[[rx ry] rw] rh]. injection H as <-.
-  assert (Hs : sauce_in_sync (cur e)) by (destruct (sauce_in_sync_dec (cur e)); [assumption|contradiction]).
+  intro H. unfold x_crop_rect in H. destruct r as [[[rx ry] rw] rh]. injection H as <-.
   eapply xplain_sound; [apply crop_closed|].
   exists rw, rh, (xlayers (cur e)), (crop_layers (rx, ry, rw, rh) (xlayers (cur e))).
-  split; [reflexivity|]. split; [apply Forall2_leqv_refl|]. split; [exact Hs|apply xeqv_refl].
+  split; [reflexivity|]. split; [apply Forall2_leqv_refl|apply xeqv_refl].
 Qed.
 
-Lemma x_crop_sound e e' : ~ known_sauce_size (cur e) -> x_crop e = Ok e' -> xedit_chain e e'.
+Lemma x_crop_sound e e' : x_crop e = Ok e' -> xedit_chain e e'.
 Proof.
-  intros HK H. unfold x_crop in H. destruct (sel (xb (cur e))); [eapply x_crop_rect_sound; eauto|injection H as <-; apply xchain_refl].
+  intro H. unfold x_crop in H. destruct (sel (xb (cur e))); [eapply x_crop_rect_sound; eauto|injection H as <-; apply xchain_refl].
 Qed.
 
-Lemma x_resize_buffer_layers_sound w h e e' : ~ known_sauce_size (cur e) -> x_resize_buffer_layers w h e = Ok e' -> xedit_chain e e'.
+Lemma x_resize_buffer_layers_sound w h e e' : x_resize_buffer_layers w h e = Ok e' -> xedit_chain e e'.
 Proof.
-  intros HK H. unfold x_resize_buffer_layers in H.
-  assert (Hs : sauce_in_sync (cur e)) by (destruct (sauce_in_sync_dec (cur e)); [assumption|contradiction]).
+  intro H. unfold x_resize_buffer_layers in H.
   destruct (crop_layers (0, 0, w, h) (xlayers (cur e))) as [|L0 lt]; [discriminate|]. injection H as <-.
   eapply xplain_sound; [apply crop_closed|].
-  eexists w, h, (xlayers (cur e)), _. split; [reflexivity|]. split; [apply Forall2_leqv_refl|]. split; [exact Hs|apply xeqv_refl].
+  eexists w, h, (xlayers (cur e)), _. split; [reflexivity|]. split; [apply Forall2_leqv_refl|apply xeqv_refl].
 Qed.
 
 (* ================================================================================================================
@@ -403,7 +377,7 @@ Proof.
 Qed.
 
 (* ================================================================================================================
-   stage 5 (the sound part): rotate_layer, scroll_area_up / down over the whole layer width *)
+   stage 5: rotate_layer, scroll_area_up / down (whole layer width: the scroll records; part of it: the snapshot frame) *)
 Lemma x_rotate_layer_sound rtab e e' : x_rotate_layer rtab e = Ok e' -> xedit_chain e e'.
 Proof.
   intro H. unfold x_rotate_layer in H. destruct (nth_error (xlayers (cur e)) (curl (xb (cur e)))) as [L|] eqn:Hn; [|discriminate].
@@ -415,15 +389,15 @@ Proof.
   xfinish H E1 C1.
 Qed.
 
-Lemma x_scroll_area_whole_sound up e e' : x_scroll_area_whole up e = Ok e' -> xedit_chain e e'.
+Lemma x_scroll_area_ud_sound up e e' : x_scroll_area_ud up e = Ok e' -> xedit_chain e e'.
 Proof.
-  intro H. unfold x_scroll_area_whole in H. eapply xguarded_chain; [|exact H]. clear H e'. set (e0 := mkEs (cur e) (ustk e) []).
+  intro H. unfold x_scroll_area_ud in H. eapply xguarded_chain; [|exact H]. clear H e'. set (e0 := mkEs (cur e) (ustk e) []).
   intros e2 Hb. cbv beta in Hb.
   destruct (get_cur_layer (xb (cur e0))) as [[i L]|] eqn:Ec; [|discriminate].
   destruct (get_cur_layer_some _ _ _ Ec) as [Hn _].
   destruct (get_area (sel (xb (cur e0))) L) as [[[ax ay] aw] ah].
   destruct (rect_is_empty (0, 0, aw, ah)); [injection Hb as <-; apply xchain_refl|].
-  destruct (l_w L <=? aw); [|discriminate].
+  destruct (l_w L <=? aw); [|eapply lift_edit_sound; [apply area_body_scroll_ud_sound|exact Hb]].
   destruct up.
   - destruct (xpush_sound _ _ e0 (XScrollUp i) (with_xb (cur e0) (upd_layer (xb (cur e0)) i l_scroll_up)) (xstable_lclosed _ scroll_stable)) as (e1 & E1 & C1 & _).
     { exists i, L. split; [exact Hn|]. left. split; [reflexivity|apply xeqv_refl]. }
@@ -431,6 +405,54 @@ Proof.
   - destruct (xpush_sound _ _ e0 (XScrollDown i) (with_xb (cur e0) (upd_layer (xb (cur e0)) i l_scroll_down)) (xstable_lclosed _ scroll_stable)) as (e1 & E1 & C1 & _).
     { exists i, L. split; [exact Hn|]. right. split; [reflexivity|apply xeqv_refl]. }
     xfinish Hb E1 C1.
+Qed.
+
+(* ================================================================================================================
+   stage 5, continued: insert / delete row and column (sound since the fix commit for C08-rowcol-raw-lines) *)
+Lemma xpush_neg_row (e : XE) o i ln L : nth_error (xlayers (cur e)) i = Some L -> ln < 0 ->
+  (o = XDeleteRow i ln [] \/ o = XInsertRow i ln []) -> xpush o e = Panic 42.
+Proof.
+  intros Hn Hln Ho. unfold xpush, push_action. rewrite f_redo_leaf.
+  assert (Ha : as_index ln = Panic 42) by (unfold as_index; replace (ln <? 0) with true by (symmetry; apply Z.ltb_lt; exact Hln); reflexivity).
+  destruct Ho as [-> | ->]; cbn [xop_redo]; rewrite Hn, Ha; reflexivity.
+Qed.
+
+Lemma x_delete_row_sound e e' : x_delete_row e = Ok e' -> xedit_chain e e'.
+Proof.
+  intro H. unfold x_delete_row in H. destruct (get_current_layer (xb (cur e))) as [i| |] eqn:Ec; cbn [bind] in H; try discriminate.
+  destruct (get_current_layer_ok _ _ Ec) as (L & Hn). set (ln := caret_y (xb (cur e))) in *.
+  destruct (Z_lt_ge_dec ln 0) as [Hneg|Hpos]; [rewrite (xpush_neg_row e _ i ln L Hn Hneg (or_introl eq_refl)) in H; discriminate|].
+  destruct (xpush_sound _ _ e (XDeleteRow i ln []) (upd_x (cur e) i (del_row0 (Z.to_nat ln))) delrow_closed) as (e1 & E1 & C1 & _).
+  { exists i, ln, [], L. split; [reflexivity|]. split; [lia|]. split; [exact Hn|apply xeqv_refl]. }
+  xfinish H E1 C1.
+Qed.
+
+Lemma x_insert_row_sound e e' : x_insert_row e = Ok e' -> xedit_chain e e'.
+Proof.
+  intro H. unfold x_insert_row in H. destruct (get_current_layer (xb (cur e))) as [i| |] eqn:Ec; cbn [bind] in H; try discriminate.
+  destruct (get_current_layer_ok _ _ Ec) as (L & Hn). set (ln := caret_y (xb (cur e))) in *.
+  destruct (Z_lt_ge_dec ln 0) as [Hneg|Hpos]; [rewrite (xpush_neg_row e _ i ln L Hn Hneg (or_intror eq_refl)) in H; discriminate|].
+  destruct (xpush_sound _ _ e (XInsertRow i ln []) (upd_x (cur e) i (ins_row (Z.to_nat ln) [])) insrow_closed) as (e1 & E1 & C1 & _).
+  { exists i, ln, [], L. split; [reflexivity|]. split; [lia|]. split; [exact Hn|apply xeqv_refl]. }
+  xfinish H E1 C1.
+Qed.
+
+Lemma x_delete_column_sound e e' : x_delete_column e = Ok e' -> xedit_chain e e'.
+Proof.
+  intro H. unfold x_delete_column in H. destruct (get_current_layer (xb (cur e))) as [i| |] eqn:Ec; cbn [bind] in H; try discriminate.
+  destruct (get_current_layer_ok _ _ Ec) as (L & Hn). set (col := caret_x (xb (cur e))) in *.
+  destruct (xpush_sound _ _ e (XDeleteColumn i col []) (upd_x (cur e) i (del_col (col_index col))) delcol_closed) as (e1 & E1 & C1 & _).
+  { exists i, col, [], L. split; [reflexivity|]. split; [exact Hn|apply xeqv_refl]. }
+  xfinish H E1 C1.
+Qed.
+
+Lemma x_insert_column_sound e e' : x_insert_column e = Ok e' -> xedit_chain e e'.
+Proof.
+  intro H. unfold x_insert_column in H. destruct (get_current_layer (xb (cur e))) as [i| |] eqn:Ec; cbn [bind] in H; try discriminate.
+  destruct (get_current_layer_ok _ _ Ec) as (L & Hn). set (col := caret_x (xb (cur e))) in *.
+  destruct (xpush_sound _ _ e (XInsertColumn i col) (upd_x (cur e) i (ins_col (col_index col))) (xstable_lclosed _ inscol_stable)) as (e1 & E1 & C1 & _).
+  { exists i, col, L. split; [reflexivity|]. split; [exact Hn|apply xeqv_refl]. }
+  xfinish H E1 C1.
 Qed.
 
 (* ================================================================================================================
@@ -467,56 +489,60 @@ Proof.
   destruct 1; try (apply modelled_sound; constructor; assumption); [apply api_stamp_layer_down_sound|apply api_scroll_area_lr_sound].
 Qed.
 
-Inductive xmodelled : (XE -> res XE) -> (xstate -> Prop) -> Prop :=
-| xm_lift f : liftable f -> xmodelled (lift_edit f) never
-| xm_flip_x ftabs : xmodelled (x_flip_x ftabs) never
-| xm_flip_y ftabs : xmodelled (x_flip_y ftabs) never
-| xm_resize_buffer w h : xmodelled (x_resize_buffer w h) known_sauce_size
-| xm_switch_to_palette p : xmodelled (x_switch_to_palette p) never
-| xm_update_sauce_data d : xmodelled (x_update_sauce_data d) never
-| xm_switch_to_font_page p : xmodelled (x_switch_to_font_page p) never
-| xm_set_font sv newf : xmodelled (x_set_font sv newf) known_setfont
-| xm_add_ansi_font page newf : xmodelled (x_add_ansi_font page newf) (known_addfont page)
-| xm_replace_font_usage a b : xmodelled (x_replace_font_usage a b) never
-| xm_change_font_slot a b : xmodelled (x_change_font_slot a b) (known_fontslot a b)
-| xm_remove_font f : xmodelled (x_remove_font f) never
-| xm_set_ice_mode conv mode : xmodelled (x_set_ice_mode_gen conv mode) never
-| xm_set_palette_mode plan mode : xmodelled (x_set_palette_mode_gen plan mode) never
-| xm_merge_layer_down n : xmodelled (x_merge_layer_down n) never
-| xm_anchor_layer : xmodelled x_anchor_layer never
-| xm_paste L : xmodelled (x_paste_clipboard_data L) never
-| xm_crop_rect r : xmodelled (x_crop_rect r) known_sauce_size
-| xm_crop : xmodelled x_crop known_sauce_size
-| xm_resize_buffer_layers w h : xmodelled (x_resize_buffer_layers w h) known_sauce_size
-| xm_clear_selection : xmodelled x_clear_selection never
-| xm_add_selection_to_mask : xmodelled x_add_selection_to_mask never
-| xm_inverse_selection : xmodelled x_inverse_selection never
-| xm_enumerate_selections f : xmodelled (x_enumerate_selections f) never
-| xm_erase_selection : xmodelled x_erase_selection never
-| xm_center_line : xmodelled x_center_line never
-| xm_justify_line_left : xmodelled x_justify_line_left never
-| xm_justify_line_right : xmodelled x_justify_line_right never
-| xm_erase_row : xmodelled x_erase_row never
-| xm_erase_row_to_start : xmodelled x_erase_row_to_start never
-| xm_erase_row_to_end : xmodelled x_erase_row_to_end never
-| xm_erase_column : xmodelled x_erase_column never
-| xm_erase_column_to_start : xmodelled x_erase_column_to_start never
-| xm_erase_column_to_end : xmodelled x_erase_column_to_end never
-| xm_rotate_layer rtab : xmodelled (x_rotate_layer rtab) never
-| xm_scroll_area_whole up : xmodelled (x_scroll_area_whole up) never.
+Inductive xmodelled : (XE -> res XE) -> Prop :=
+| xm_lift f : liftable f -> xmodelled (lift_edit f)
+| xm_flip_x ftabs : xmodelled (x_flip_x ftabs)
+| xm_flip_y ftabs : xmodelled (x_flip_y ftabs)
+| xm_resize_buffer w h : xmodelled (x_resize_buffer w h)
+| xm_switch_to_palette p : xmodelled (x_switch_to_palette p)
+| xm_update_sauce_data d : xmodelled (x_update_sauce_data d)
+| xm_switch_to_font_page p : xmodelled (x_switch_to_font_page p)
+| xm_set_font sv newf : xmodelled (x_set_font sv newf)
+| xm_add_ansi_font page newf : xmodelled (x_add_ansi_font page newf)
+| xm_replace_font_usage a b : xmodelled (x_replace_font_usage a b)
+| xm_change_font_slot a b : xmodelled (x_change_font_slot a b)
+| xm_remove_font f : xmodelled (x_remove_font f)
+| xm_set_ice_mode conv mode : xmodelled (x_set_ice_mode_gen conv mode)
+| xm_set_palette_mode plan mode : xmodelled (x_set_palette_mode_gen plan mode)
+| xm_merge_layer_down n : xmodelled (x_merge_layer_down n)
+| xm_anchor_layer : xmodelled x_anchor_layer
+| xm_paste L : xmodelled (x_paste_clipboard_data L)
+| xm_crop_rect r : xmodelled (x_crop_rect r)
+| xm_crop : xmodelled x_crop
+| xm_resize_buffer_layers w h : xmodelled (x_resize_buffer_layers w h)
+| xm_clear_selection : xmodelled x_clear_selection
+| xm_add_selection_to_mask : xmodelled x_add_selection_to_mask
+| xm_inverse_selection : xmodelled x_inverse_selection
+| xm_enumerate_selections f : xmodelled (x_enumerate_selections f)
+| xm_erase_selection : xmodelled x_erase_selection
+| xm_center_line : xmodelled x_center_line
+| xm_justify_line_left : xmodelled x_justify_line_left
+| xm_justify_line_right : xmodelled x_justify_line_right
+| xm_erase_row : xmodelled x_erase_row
+| xm_erase_row_to_start : xmodelled x_erase_row_to_start
+| xm_erase_row_to_end : xmodelled x_erase_row_to_end
+| xm_erase_column : xmodelled x_erase_column
+| xm_erase_column_to_start : xmodelled x_erase_column_to_start
+| xm_erase_column_to_end : xmodelled x_erase_column_to_end
+| xm_rotate_layer rtab : xmodelled (x_rotate_layer rtab)
+| xm_scroll_area_ud up : xmodelled (x_scroll_area_ud up)
+| xm_delete_row : xmodelled x_delete_row
+| xm_insert_row : xmodelled x_insert_row
+| xm_delete_column : xmodelled x_delete_column
+| xm_insert_column : xmodelled x_insert_column.
 
 Lemma xlift_sound f : bsound_edit f -> forall e e', xlift f e = Ok e' -> xedit_chain e e'.
 Proof. exact (lift_edit_sound f). Qed.
 
-Theorem xmodelled_sound f K : xmodelled f K -> forall e e', ~ K (cur e) -> f e = Ok e' -> xedit_chain e e'.
+Theorem xmodelled_sound f : xmodelled f -> forall e e', f e = Ok e' -> xedit_chain e e'.
 Proof.
-  destruct 1 as [f Hl| | | | | | | | | | | | | | | | | | | | | | | | | | | | | | | | | | |]; intros e e' HK H;
+  destruct 1 as [f Hl| | | | | | | | | | | | | | | | | | | | | | | | | | | | | | | | | | | | | | |]; intros e e' H;
   try solve [eauto using x_resize_buffer_sound, x_switch_to_palette_sound, x_update_sauce_data_sound, x_switch_to_font_page_sound,
     x_set_font_sound, x_add_ansi_font_sound, x_replace_font_usage_sound, x_change_font_slot_sound, x_remove_font_sound,
     x_set_ice_mode_gen_sound, x_set_palette_mode_gen_sound, x_merge_layer_down_sound, x_anchor_layer_sound, x_paste_clipboard_data_sound,
     x_crop_rect_sound, x_crop_sound, x_resize_buffer_layers_sound, x_clear_selection_sound, x_add_selection_to_mask_sound,
-    x_inverse_selection_sound, x_enumerate_selections_sound, x_erase_selection_sound, x_rotate_layer_sound, x_scroll_area_whole_sound,
-    x_line_erase_sound].
+    x_inverse_selection_sound, x_enumerate_selections_sound, x_erase_selection_sound, x_rotate_layer_sound, x_scroll_area_ud_sound,
+    x_line_erase_sound, x_delete_row_sound, x_insert_row_sound, x_delete_column_sound, x_insert_column_sound].
   - eapply lift_edit_sound; [apply liftable_sound; exact Hl|exact H].
   - unfold x_flip_x in H. eapply lift_edit_sound; [apply api_flip_x_sound|exact H].
   - unfold x_flip_y in H. eapply lift_edit_sound; [apply api_flip_y_sound|exact H].
@@ -525,14 +551,14 @@ Proof.
   - eapply (x_line_op_sound row_sel (xlift api_justify_right)); [apply xlift_sound, api_justify_right_sound|exact H].
 Qed.
 
-(* a history: every operation is modelled, is applied outside its known class, and reports Ok *)
+(* a history: every operation is modelled and reports Ok *)
 Inductive xrun : list (XE -> res XE) -> XE -> XE -> Prop :=
 | xrun_nil e : xrun [] e e
-| xrun_cons f K fs e e1 e2 : xmodelled f K -> ~ K (cur e) -> f e = Ok e1 -> xrun fs e1 e2 -> xrun (f :: fs) e e2.
+| xrun_cons f fs e e1 e2 : xmodelled f -> f e = Ok e1 -> xrun fs e1 e2 -> xrun (f :: fs) e e2.
 
 Lemma xrun_chain fs e e' : xrun fs e e' -> xedit_chain e e'.
 Proof.
-  induction 1 as [e|f K fs e e1 e2 Hm HK Hf Hr IH]; [apply xchain_refl|].
+  induction 1 as [e|f fs e e1 e2 Hm Hf Hr IH]; [apply xchain_refl|].
   eapply xchain_trans; [eapply xmodelled_sound; eauto|exact IH].
 Qed.
 
@@ -561,35 +587,64 @@ Proof.
 Qed.
 
 (* ================================================================================================================
-   witnesses of the known classes: inside the class the operation reports Ok and its undo does not restore the document *)
+   a small concrete document for witnesses and Examples *)
 Definition wit_base : estate := mkE 4 2 [mkLayer 0 true false false false false 0 0 0 4 2 (10, 0)%N []] 0 None false 0 0.
 Definition wit_doc (f : fonts) (sa : option sauce) (fm cfp : N) : XE :=
   mkEs (mkX wit_base [0%N; 170%N] f sa 0 1 fm cfp (mkMask 4 2 [])) [] [].
 
-Definition undo_fails_to_restore (f : XE -> res XE) (K : xstate -> Prop) (e : XE) : Prop :=
-  K (cur e) /\ exists e1 e2, f e = Ok e1 /\ undo xop_undo e1 = Ok e2 /\ ~ xeqv (cur e2) (cur e).
+(* ================================================================================================================
+   the four repaired records (documentation): on a concrete document the operation followed by undo restores the document,
+   while the record the code pushed BEFORE the fix commit, undone from the same state, does not.
+   The old records are instances of the new ones:
+     ResizeBuffer / Crop without a recorded SAUCE size            = XResizeBuffer .. None   (sauce_restore _ None is the identity)
+     SetFont recording the font of slot 0 for the caret's slot    = XSetFont (caret page) (font of slot 0) new
+     AddFont / ChangeFontSlot that never captured the old font    = XAddFont .. None / XChangeFontSlot .. None  undone as they are *)
+Definition undo_restores (f : XE -> res XE) (e : XE) : Prop :=
+  exists e1 e2, f e = Ok e1 /\ undo xop_undo e1 = Ok e2 /\ xeqv (cur e2) (cur e).
+Definition old_record_fails (f : XE -> res XE) (e : XE) (old : xuop) : Prop :=
+  exists e1 o' s2, f e = Ok e1 /\ xop_undo old (cur e1) = Ok (o', s2) /\ ~ xeqv s2 (cur e).
+Definition before_fix_refuted (f : XE -> res XE) (e : XE) (old : xuop) : Prop := undo_restores f e /\ old_record_fails f e old.
 
-Lemma known_setfont_witness_proof : undo_fails_to_restore (x_set_font false (Some 8%N)) known_setfont (wit_doc [(0, 1); (2, 6)]%N None 3 2).
+Ltac fonts_eq_concrete :=
+  let k := fresh "k" in intro k; cbn;
+  repeat match goal with |- context [(k =? ?c)%N] => let E := fresh in destruct (k =? c)%N eqn:E; [apply N.eqb_eq in E; subst k; reflexivity|] end;
+  reflexivity.
+
+Lemma setfont_before_fix_refuted_proof :
+  before_fix_refuted (x_set_font false (Some 8%N)) (wit_doc [(0, 1); (2, 6)]%N None 3 2) (XSetFont 2 (Some 1%N) 8).
 Proof.
-  split; [split; [reflexivity|discriminate]|]. eexists _, _. split; [vm_compute; reflexivity|]. split; [vm_compute; reflexivity|].
-  intros [_ (_ & Hf & _)]. specialize (Hf 2%N). vm_compute in Hf. discriminate.
+  split.
+  - eexists _, _. split; [vm_compute; reflexivity|]. split; [vm_compute; reflexivity|].
+    split; [apply eqv_refl|]. repeat split. fonts_eq_concrete.
+  - eexists _, _, _. split; [vm_compute; reflexivity|]. split; [vm_compute; reflexivity|].
+    intros [_ (_ & Hf & _)]. specialize (Hf 2%N). vm_compute in Hf. discriminate.
 Qed.
 
-Lemma known_addfont_witness_proof : undo_fails_to_restore (x_add_ansi_font 2 (Some 8%N)) (known_addfont 2) (wit_doc [(0, 1); (2, 6)]%N None 3 0).
+Lemma addfont_before_fix_refuted_proof :
+  before_fix_refuted (x_add_ansi_font 2 (Some 8%N)) (wit_doc [(0, 1); (2, 6)]%N None 3 0) (XAddFont 0 2 8 None).
 Proof.
-  split; [unfold known_addfont; vm_compute; discriminate|]. eexists _, _. split; [vm_compute; reflexivity|]. split; [vm_compute; reflexivity|].
-  intros [_ (_ & Hf & _)]. specialize (Hf 2%N). vm_compute in Hf. discriminate.
+  split.
+  - eexists _, _. split; [vm_compute; reflexivity|]. split; [vm_compute; reflexivity|].
+    split; [apply eqv_refl|]. repeat split. fonts_eq_concrete.
+  - eexists _, _, _. split; [vm_compute; reflexivity|]. split; [vm_compute; reflexivity|].
+    intros [_ (_ & Hf & _)]. specialize (Hf 2%N). vm_compute in Hf. discriminate.
 Qed.
 
-Lemma known_fontslot_witness_proof : undo_fails_to_restore (x_change_font_slot 2 3) (known_fontslot 2 3) (wit_doc [(0, 1); (2, 6); (3, 7)]%N None 3 0).
+Lemma fontslot_before_fix_refuted_proof :
+  before_fix_refuted (x_change_font_slot 2 3) (wit_doc [(0, 1); (2, 6); (3, 7)]%N None 3 0) (XChangeFontSlot 2 3 None).
 Proof.
-  split; [unfold known_fontslot; vm_compute; repeat split; discriminate|]. eexists _, _. split; [vm_compute; reflexivity|]. split; [vm_compute; reflexivity|].
-  intros [_ (_ & Hf & _)]. specialize (Hf 3%N). vm_compute in Hf. discriminate.
+  split.
+  - eexists _, _. split; [vm_compute; reflexivity|]. split; [vm_compute; reflexivity|].
+    split; [apply eqv_refl|]. repeat split. fonts_eq_concrete.
+  - eexists _, _, _. split; [vm_compute; reflexivity|]. split; [vm_compute; reflexivity|].
+    intros [_ (_ & Hf & _)]. specialize (Hf 3%N). vm_compute in Hf. discriminate.
 Qed.
 
-Lemma known_sauce_size_witness_proof : undo_fails_to_restore (x_resize_buffer 3 1) known_sauce_size (wit_doc [(0, 1)]%N (Some (mkSauce 7 3 5)) 0 0).
+Lemma resize_sauce_size_before_fix_refuted_proof :
+  before_fix_refuted (x_resize_buffer 3 1) (wit_doc [(0, 1)]%N (Some (mkSauce 7 3 5)) 0 0) (XResizeBuffer 4 2 3 1 None).
 Proof.
-  split; [unfold known_sauce_size, sauce_in_sync; vm_compute; intros [H _]; discriminate|].
-  eexists _, _. split; [vm_compute; reflexivity|]. split; [vm_compute; reflexivity|].
-  intros [_ (_ & _ & Hs & _)]. vm_compute in Hs. discriminate.
+  split.
+  - eexists _, _. split; [vm_compute; reflexivity|]. split; [vm_compute; reflexivity|]. apply xeqv_refl.
+  - eexists _, _, _. split; [vm_compute; reflexivity|]. split; [vm_compute; reflexivity|].
+    intros [_ (_ & _ & Hs & _)]. vm_compute in Hs. discriminate.
 Qed.
